@@ -160,10 +160,10 @@ def encodeReg (op : Operand) : M Nat :=
   | .reg r => regNum r
   | _ => do err "invalid-addressing"; abort
 
-/-- `FP11AccumulatorOperandStub.encode` -/
-def encodeAcc (op : Operand) : M Nat :=
+/-- `FP11AccumulatorOperandStub.encode`: only accumulators the field can hold -/
+def encodeAcc (width : Nat) (op : Operand) : M Nat :=
   match op with
-  | .acc n => pure n
+  | .acc n => if n ≥ 2 ^ width then do err "invalid-addressing"; abort else pure n
   | _ => do err "invalid-addressing"; abort
 
 /-- the `fn` of `OffsetOperandStub.encode`: field value and reported errors, as a
@@ -212,7 +212,7 @@ def encodeStub (s : StubG) (op : Operand) (rel : Int) : M (Int × List Nat) :=
   | .register => do let n ← encodeReg op; pure (n, [])
   | .registerMode => do let (f, ext) ← encodeRM op rel; pure (f, ext)
   | .fp11rm => do let (f, ext) ← encodeFP11RM op rel; pure (f, ext)
-  | .fp11acc => do let n ← encodeAcc op; pure (n, [])
+  | .fp11acc => do let n ← encodeAcc s.bits.length op; pure (n, [])
   | .offset => do let f ← encodeOffset s.bits.length s.unsigned op rel; pure (f, [])
   | .immediate => do let f ← encodeImm s.bits.length s.unsigned op; pure (f, [])
 
